@@ -1,6 +1,8 @@
 """Coverage-guided leg of the graph family (atheris / libFuzzer).
 
-    python -m vpbt.fuzz_child <check module> <seed> <shard> <runs> <max_n> <out.pkl> [corpus|empty]
+    python -m vpbt.fuzz_child '<spec as JSON>' <out.pkl>
+      spec = ["fuzz", check module, seed, shard, runs, max_n, "empty"|"corpus"]              graphs
+           | ["pfuzz", check module, seed, shard, runs, depth, max_runs, [features off]]     programs (through Hypothesis' fuzz_one_input)
 
 One process = one libFuzzer campaign: `-seed` is derived from (VERIF_SEED,
 shard), the corpus directory is fresh, the campaign ends after exactly <runs>
@@ -66,8 +68,10 @@ def decode(data: bytes, max_n: int):
 
 
 def main():
-    modname, seed, shard, runs, max_n, out = sys.argv[1], int(sys.argv[2]), int(sys.argv[3]), int(sys.argv[4]), int(sys.argv[5]), sys.argv[6]
-    corpus_mode = sys.argv[7] if len(sys.argv) > 7 else "empty"
+    import json
+
+    spec, out = json.loads(sys.argv[1]), sys.argv[2]
+    kind, modname, seed, shard, runs = spec[0], spec[1], int(spec[2]), int(spec[3]), int(spec[4])
     for dep in (Path("/verif/.deps"), VERIF / ".deps"):  # the second wins; /verif/.deps serves snapshots of /verif (vp run)
         if dep.is_dir():
             sys.path.insert(0, str(dep))
@@ -95,7 +99,6 @@ def main():
     from vpbt.core import Collector, h64
 
     mod = importlib.import_module(modname)
-    evaluate = mod._eval
     col = Collector()
     state = dict(calls=0, done=False)
 
@@ -109,34 +112,61 @@ def main():
         sys.stdout.flush()
         os._exit(0)
 
-    def target(data):
-        state["calls"] += 1
-        d = decode(data, max_n)
-        if d is not None:
-            n, raw, style, key = d
-            g = gg.repair(n, raw)
-            if len(g) >= 2:
-                st = gg.STYLES[style % len(gg.STYLES)]
-                named = gg.restyle(g, st, sweep._perm(len(g), key) if st in ("perm", "alpha", "gen") else None)
-                col.count("origin_fuzz")
-                evaluate(col, g, named, "fuzz")
-            else:
-                col.count("fuzz_degenerate")
-        else:
-            col.count("fuzz_degenerate")
-        if state["calls"] >= runs:
-            finish()
-
     cdir = Path(out + ".corpus")
     cdir.mkdir(parents=True, exist_ok=True)
-    if corpus_mode == "corpus":
-        k = 0
-        for n in (3, 4, 5):
-            for g in gg.enum_labelled(n, shard % 7, 7):
-                k += 1
-                if k % 97 == 0:
-                    (cdir / f"s{k}").write_bytes(encode(g, k))
-    argv = [sys.argv[0], f"-seed={1 + h64(('fuzz', seed, shard)) % (2**31 - 2)}", f"-runs={runs + 100000}", f"-max_len={4 + 3 * max_n}", "-print_final_stats=0", "-verbosity=0", str(cdir)]
+    if kind == "fuzz":
+        max_n, corpus_mode = int(spec[5]), spec[6]
+        evaluate = mod._eval
+
+        def target(data):
+            state["calls"] += 1
+            d = decode(data, max_n)
+            if d is not None:
+                n, raw, style, key = d
+                g = gg.repair(n, raw)
+                if len(g) >= 2:
+                    st = gg.STYLES[style % len(gg.STYLES)]
+                    named = gg.restyle(g, st, sweep._perm(len(g), key) if st in ("perm", "alpha", "gen") else None)
+                    col.count("origin_fuzz")
+                    evaluate(col, g, named, "fuzz")
+                else:
+                    col.count("fuzz_degenerate")
+            else:
+                col.count("fuzz_degenerate")
+            if state["calls"] >= runs:
+                finish()
+
+        if corpus_mode == "corpus":
+            k = 0
+            for n in (3, 4, 5):
+                for g in gg.enum_labelled(n, shard % 7, 7):
+                    k += 1
+                    if k % 97 == 0:
+                        (cdir / f"s{k}").write_bytes(encode(g, k))
+        max_len = 4 + 3 * max_n
+    elif kind == "pfuzz":
+        # programs: libFuzzer drives the Hypothesis grammar strategy of the check through fuzz_one_input
+        depth, max_runs, feats_off = int(spec[5]), int(spec[6]), list(spec[7])
+        t = mod.PROG_BUILD(col, ("p", seed, shard, 1, depth, max_runs, feats_off, None), origin="fuzz")
+        one = t.hypothesis.fuzz_one_input
+
+        def target(data):
+            state["calls"] += 1
+            one(data)
+            if state["calls"] >= runs:
+                finish()
+
+        # an empty corpus never gets past Hypothesis' "ran out of data": start from pseudo-random byte strings
+        # (deterministic in seed and shard) that are long enough to complete a draw
+        import hashlib
+
+        for k in range(24):
+            blob = b"".join(hashlib.blake2b(repr((seed, shard, k, j)).encode(), digest_size=64).digest() for j in range(24))
+            (cdir / f"r{k}").write_bytes(blob)
+        max_len = 4096
+    else:
+        raise ValueError(kind)
+    argv = [sys.argv[0], f"-seed={1 + h64(('fuzz', seed, shard)) % (2**31 - 2)}", f"-runs={runs + 100000}", f"-max_len={max_len}", "-print_final_stats=0", "-verbosity=0", str(cdir)]
     atheris.Setup(argv, target)
     atheris.Fuzz()
     finish()
